@@ -14,6 +14,7 @@ func init() {
 	vHarnesses["VerifH_C15_rewrite"] = VerifH_C15_rewrite
 	vHarnesses["VerifH_C15_edgeid"] = VerifH_C15_edgeid
 	vHarnesses["VerifH_C15_vertices"] = VerifH_C15_vertices
+	vHarnesses["VerifH_C15_lookup"] = VerifH_C15_lookup
 }
 
 func c15List(ss ...string) *structpb.ListValue {
@@ -268,4 +269,69 @@ func VerifH_C15_vertices() {
 	// writes are refused
 	vAssert("C15.writes-refused", g.AddVertex([]*gdbi.Vertex{{ID: "x", Label: "A"}}) != nil && g.AddEdge([]*gdbi.Edge{{ID: "e", From: "a", To: "b", Label: "L"}}) != nil &&
 		g.DelVertex(id1) != nil && g.DelEdge("e") != nil && g.BulkAdd(nil) != nil)
+}
+
+// VerifH_C15_lookup: a stream of vertex lookups that reaches both vertex tables
+// (their labels equal or different) returns, per request, the vertex of that
+// table row - right id, label and properties - and nothing for an absent row.
+func VerifH_C15_lookup() {
+	l1 := c15ID("t1.label", 'A', 'B')
+	l2 := c15ID("t2.label", 'A', 'B')
+	r1 := c15ID("t1.row", 'q', 'r')
+	r2 := c15ID("t2.row", 'q', 'r')
+	src := &c15Source{tables: map[string]*c15Table{
+		"t1": {rows: []*Row{{Id: r1, Data: c15Data("name", "one")}}},
+		"t2": {rows: []*Row{{Id: r2, Data: c15Data("name", "two")}}},
+	}}
+	conf := GraphConfig{
+		Vertices: map[string]VertexConfig{
+			"a:": {Label: l1, Data: ElementConfig{Source: "s", Collection: "t1"}},
+			"b:": {Label: l2, Data: ElementConfig{Source: "s", Collection: "t2"}},
+		},
+		Edges: map[string]EdgeConfig{},
+	}
+	g, err := NewTabularGraph(conf, map[string]GRIPSourceClient{"s": src})
+	vAssert("C15.lookup.graph-builds", err == nil)
+	if err != nil {
+		return
+	}
+	n := 1 + vChoice("requests", vParam("R", 3))
+	ids := make([]string, n)
+	req := make(chan gdbi.ElementLookup, n)
+	for i := 0; i < n; i++ {
+		ids[i] = []string{"a:" + r1, "b:" + r2, "a:zz", "b:" + r1}[vChoice("req"+string(rune('0'+i)), 4)]
+		req <- gdbi.ElementLookup{ID: ids[i]}
+	}
+	close(req)
+	var got []gdbi.ElementLookup
+	for o := range g.GetVertexChannel(context.Background(), req, true) {
+		got = append(got, o)
+	}
+	vReach("c15.lookup.ran")
+	// expected: per request whose row exists, one answer carrying that vertex
+	want := 0
+	for _, id := range ids {
+		exists := id == "a:"+r1 || id == "b:"+r2
+		if !exists {
+			continue
+		}
+		want++
+		label, name := l1, "one"
+		if id[0] == 'b' {
+			label, name = l2, "two"
+		}
+		nw, ng := 0, 0
+		for _, id2 := range ids {
+			if id2 == id {
+				nw++
+			}
+		}
+		for _, o := range got {
+			if o.ID == id && o.Vertex != nil && o.Vertex.ID == id && o.Vertex.Label == label && o.Vertex.Data["name"] == name {
+				ng++
+			}
+		}
+		vAssert("C15.lookup.answer-per-request", nw == ng)
+	}
+	vAssert("C15.lookup.no-extra-answers", len(got) == want)
 }
